@@ -699,6 +699,7 @@ impl Sim {
         }
         fs.set_commit_window(r, false);
         let (committed, has_graph) = with_rep!(&self.reps[r], rep => (rep.committed.clone(), rep.has_graph));
+        self.qmon.borrow_mut().forget_all();
         let log = Rc::clone(&self.log);
         let mut zombie: Rep<MemSP> = Rep::new(r, MemSP::default(), log, SpillKind::Mem);
         zombie.committed = committed;
@@ -722,6 +723,7 @@ impl Sim {
         }
         let Some(fs) = self.fs.clone() else { return };
         fs.restart(r);
+        self.qmon.borrow_mut().forget_all();
         // Cause-based signature: once a root slot has been torn *inside* a sector (only possible
         // in the opt-in sub-sector family) every recovery failure of that replica is attributed
         // to that cause (see known-findings.txt).
